@@ -8,15 +8,22 @@ restricted types, `get_registered_type(T).serializer/deserializer`, `ArgumentPar
                         {and,or}, each type called on every candidate value (numbers around the bounds, integral and
                         non-integral floats, signed zero, inf, nan, 2^53+-1, 10^400, booleans, numeric strings, junk);
                         the singletons and the shipped types additionally through a parser (argv text, parse_object).
+                        Checked: accepted iff the statement says so, result == input as base type, T(T(v)) == T(v).
                         Oracle: a 15-line evaluation of the statement (`model_number`).
  B  restricted strings  shipped NotEmptyStr / Email + 8 custom patterns x ~45 strings; oracle: hand-written predicates
                         (no `re`) on newline-free strings; on the remaining (pattern, string) pairs CPython's `re.match`.
  C  registered types    complex, Decimal, UUID, timedelta, bytes, bytearray, range, pathlib.Path/PosixPath: for every value
                         of a grid that contains the extremes: deserializer(serializer(v)), parse_object(v), and the
-                        dump (yaml / json) re-read from a config file, from a config string and from the command line
-                        must give an equal value of the same type (NaN-aware equality).
+                        dump (yaml / json) re-read from a config file and from the command line must give an equal
+                        value of the same type (NaN-aware equality); then the same inside List / Dict / Tuple.
+                        (Not inside Optional/Union: there a text such as 'null' or '10' legitimately belongs to another member.)
  D  secrets             every value that a parse stores as a SecretStr (jsonargparse and pydantic) must be absent from
                         every dump format / option, from --print_config and from saved files.
+
+Known defect classes met on the unchanged tree (each with a tight key, nothing is special-cased away): Decimal travels through
+float (`c20:roundtrip:Decimal:...`); a str that the YAML loader reads as a float is dumped plain (C01), which breaks bytes /
+bytearray / pathlib values whose text looks like `1e30` (`c20:roundtrip:(bytes|bytearray|Path|PosixPath):<text>:yaml-file`);
+`._` crashes the float constructor (C03).  One defect fails for unboundedly many values: see `rt_check` for how they are listed.
 """
 import base64
 import contextlib
@@ -689,12 +696,14 @@ def part_d(h, tmp):
 
 # --------------------------------------------------------------------------------------------------------------------
 def main():
-    h = Harness("b20_scalar_types", rule="A: every multiset of 1..3 comparisons over 6 operators x 4 refs x {int,float} x {and,or} (quick: triples over 3 refs) x 76 candidate "
-                "values, direct call + parser for the singletons/shipped types; non-trivial = distinct (restriction set) resp. (type, channel). "
-                "B: 10 patterns x 50 strings x {call, parse_object, argv}; non-trivial = distinct (pattern, string). "
-                "C: grids of values per registered type x {pair, parse_object, yaml/json dump re-read from file, string, argv}; non-trivial = distinct "
-                "(type, value). D: 16 hint shapes x 14 secrets x input channels x 9 dump variants + print_config + save; non-trivial = distinct "
-                "(shape, channel, secret) whose parse result holds a SecretStr.")
+    h = Harness("b20_scalar_types", rule="A: every multiset of 1..3 comparisons over 6 operators x 4 refs (thorough 5) x {int,float} x {and,or} (quick: triples over 3 "
+                f"refs) x {len(number_candidates())} candidate values, called directly; the singletons, 3 compound sets and the 6 shipped types also through a parser "
+                "(parse_object, argv); non-trivial = distinct restriction set resp. (type, parser). "
+                f"B: {len(STRING_TYPES)} patterns x {len(string_candidates())} strings x {{call, parse_object, argv}}; non-trivial = distinct (pattern, string). "
+                "C: a grid of values per registered type x {serializer/deserializer pair, parse_object, yaml and json dump re-read from a config file "
+                "(thorough: and from a string), argv}, then List/Dict/Tuple/List[List] of the type; non-trivial = distinct (type, value). "
+                f"D: 16 hint shapes x {len(SECRETS)} secrets x input channels (object, argv, string, default) x 9 dump variants + print_config + save; non-trivial = "
+                "distinct (shape, channel, secret) whose parse result holds a SecretStr.")
     # registries are restored at the end (types created here are not left behind in the imported module)
     snap = (dict(jt.registered_types), dict(jt.registered_type_handlers), dict(jt.registration_pending), set(vars(jt)))
     cwd = os.getcwd()
@@ -714,11 +723,14 @@ def main():
         jt.registration_pending.update(snap[2])
         for name in set(vars(jt)) - snap[3]:
             delattr(jt, name)
-    sys.exit(h.finish(exhaustive=True, bound="restriction multisets of size <= 3 over {>,>=,<,<=,==,!=} x refs int{-1,0,1,3} / float{-1,0,1,2.5} "
-                      f"({'all' if h.thorough else 'triples over 3 refs'}) x 76 values; 10 regexes x 50 strings; registered types: timedelta grid 8x8x5 + extremes, "
-                      "complex 15x15 parts, 39 Decimals, 9 UUIDs, bytes (single bytes, look-alike base64 texts), ranges 6x7x6, 57 look-alike paths"
-                      + ("; + 400 seeded random values per type, all 10^4 base64 texts over '019eE+xnul'" if h.thorough else "")
-                      + "; secrets: 16 shapes x 14 secrets"))
+    refs = REFS_THOROUGH if h.thorough else REFS
+    sys.exit(h.finish(exhaustive=True, bound=f"restriction multisets of size <= 3 over {{>,>=,<,<=,==,!=}} x refs int{refs[int]} / float{refs[float]} "
+                      f"({'all' if h.thorough else 'triples over the last 3 refs'}) x {len(number_candidates())} values; {len(STRING_TYPES)} regexes x "
+                      f"{len(string_candidates())} strings; registered types: timedelta grid 8 days x 8 seconds x 5 microseconds + extremes, complex 15x15 parts, "
+                      "39 Decimals, 9 UUIDs, bytes (every 5th single byte, 32 look-alike base64 texts), ranges 6 starts x 7 stops x 6 steps, "
+                      f"{len(LOOKALIKE)} look-alike paths"
+                      + ("; + 400 seeded random values per type, every single byte, all 10^4 base64 texts of 4 characters over '019eE+xnul'" if h.thorough else "")
+                      + f"; secrets: 16 shapes x {len(SECRETS)} secrets"))
 
 
 if __name__ == "__main__":
